@@ -36,10 +36,11 @@ inductive PRes (α : Type) where
   | raised (cls : String)
   deriving Repr, BEq, Inhabited
 
-/-- `except (AttributeError, ValueError):` around `tinycss2.nth.parse_nth(nth)` (repair 9ef10c8). -/
-def nthCaught (cls : String) : Bool := cls == "AttributeError" || cls == "ValueError"
+/-- `except (AttributeError, StopIteration, ValueError):` around `tinycss2.nth.parse_nth(nth)` (repairs 9ef10c8,
+54b52a1). -/
+def nthCaught (cls : String) : Bool := cls == "AttributeError" || cls == "StopIteration" || cls == "ValueError"
 
-/-- `try: nth_values = parse_nth(nth) / except (AttributeError, ValueError): return None /
+/-- `try: nth_values = parse_nth(nth) / except (AttributeError, StopIteration, ValueError): return None /
 if nth_values is None: return None` on one entry of the oracle table (`none` = index out of the table). -/
 def nthValues (e : Option NthRes) : PRes (Int × Int) :=
   match e with
